@@ -222,6 +222,15 @@ func (e *Engine) GenVC(fn *ssa.Function, opts VerifyOpts) (res *FuncVC) {
 	if out != nil {
 		vc.obligs = append(vc.obligs, &Oblig{Name: fname + "#cover:exit", Kind: "cover", Reach: out.reach, Goal: "false", IsCover: true, Func: fn.String(), Text: "some execution reaches a return"})
 	}
+	// an `assert before <callee>@k` clause that never met its call site no longer describes the code: contract drift
+	if fr.contract != nil {
+		for i, h := range fr.contract.Hints {
+			if !fr.hintApplied[i] {
+				res.ContractErr = fmt.Sprintf("assert before %s@%d: the function has no such call (clause: %s)", h.Callee, h.K, h.C.Text)
+				break
+			}
+		}
+	}
 	res.Obligs = vc.obligs
 	return res
 }
